@@ -31,6 +31,7 @@ struct Prog {
     uint8_t moves;                 // promise moved k times before use
     bool resolvers_first;
     bool assign_over = false;      // before use the promise is move-ASSIGNED onto a promise that still owns another, unresolved future
+    uint8_t factory = 0;           // (C02, C03) the future is born resolved: 1 future<T>::set_value(v), 2 set_exception(e), 3 set_not_value(); no promise exists
 };
 
 inline Prog decode(hz::Reader &r, Mode m) {
@@ -53,6 +54,7 @@ inline Prog decode(hz::Reader &r, Mode m) {
     p.assign_over = r.mod(3) == 1;
     for (auto &x : p.res) { unsigned e = r.mod(8); if (e >= 3) x.action = (uint8_t)(A_MOVE_THEN_VALUE + (e - 3)); }
     for (auto &x : p.wai) { unsigned e = r.mod(8); if (e == 7) x.kind = W_PARALLEL; }
+    { unsigned e = r.mod(8); if (m != M_C01 && e >= 5) { p.factory = (uint8_t)(e - 4); p.moves = 0; p.assign_over = false; for (auto &x : p.res) x.action = A_NOTHING; } }
     return p;
 }
 
@@ -62,6 +64,7 @@ inline std::string describe(const Prog &p) {
         "move the promise into a local, then value", "move-assign the promise into a local and destroy it", "bind(value) then call", "unhandled_exception() in a catch block", "move into promise_with_default and destroy it"};
     static const char *wk[] = {"co_await f", "co_await f.has_value()", "f.wait()", "f.sync()", "subscribe(custom awaiter)", "callback_await", "poll ready()", "force_wait() inside a coroutine", "if (f) ... *f (operator bool / operator*)", "co_await cocls::parallel(f)"};
     hz::Desc d;
+    if (p.factory) d << "[the future is born resolved: " << (p.factory == 1 ? "future<T>::set_value(v)" : p.factory == 2 ? "future<T>::set_exception(e)" : "future<T>::set_not_value()") << ", there is no promise] ";
     d << "future<" << vt[p.vt] << ">, promise moved " << (unsigned)p.moves << "x" << (p.assign_over ? " and move-assigned onto a promise that owned another pending future" : "") << ", " << (p.resolvers_first ? "resolvers spawned first" : "waiters spawned first") << "; resolvers:";
     for (size_t i = 0; i < p.res.size(); i++) d << " R" << (unsigned)i << "[yield*" << (unsigned)p.res[i].yields << ", " << act[p.res[i].action] << "]";
     d << "; waiters:";
@@ -350,6 +353,19 @@ void run_t(const Prog &p, Mode mode) {
         c.w.resize(p.wai.size()); c.r.resize(p.res.size());
         for (size_t i = 0; i < p.wai.size(); i++) c.w[i].kind = p.wai[i].kind;
         for (size_t i = 0; i < p.res.size(); i++) c.r[i].action = p.res[i].action;
+        if (p.factory) {
+            // a future that is born resolved (documented factories): constructed in place from the factory's result
+            if (p.factory == 1) {
+                if constexpr (VT == 0) c.f << [] { return cocls::future<int>::set_value(Ctx<VT>::value_of(7)); };
+                else if constexpr (VT == 1) c.f << [] { return cocls::future<void>::set_value(); };
+                else if constexpr (VT == 2) c.f << [] { return cocls::future<val::MoveOnly>::set_value(val::MoveOnly(Ctx<VT>::value_of(7))); };
+                else if constexpr (VT == 3) c.f << [&c] { return cocls::future<int &>::set_value(c.slots[7]); };
+                else c.f << [] { return cocls::future<val::Counted>::set_value(val::Counted(Ctx<VT>::value_of(7))); };
+            }
+            else if (p.factory == 2) c.f << [] { return cocls::future<typename Tr<VT>::T>::set_exception(std::make_exception_ptr(val::TestExc(7))); };
+            else c.f << [] { return cocls::future<typename Tr<VT>::T>::set_not_value(); };
+            HZ_CHECK(c.f.ready(), "a future built by set_value / set_exception / set_not_value is not ready");
+        } else
         c.prom.emplace(c.f.get_promise());
         for (unsigned k = 0; k < p.moves; k++) {
             cocls::promise<typename Tr<VT>::T> tmp(std::move(*c.prom));
@@ -390,6 +406,7 @@ void run_t(const Prog &p, Mode mode) {
         }
         HZ_CHECK(winners == (acted ? 1 : 0), "%d resolver calls reported success (%d resolvers acted): exactly one resolution must take effect", winners, acted);
         int expect = winner >= 0 ? c.expected_code(c.r[winner].action, winner) : -1;
+        if (p.factory) expect = p.factory == 1 ? (VT == 1 ? 0 : Ctx<VT>::value_of(7)) : p.factory == 2 ? 1007 : -1;
         int final1 = c.observe();
         HZ_CHECK(final1 != -2, "future still reports value_not_ready after every resolver finished and the promise was destroyed");
         HZ_CHECK(final1 != -3, "future holds a torn / destroyed value");
@@ -400,6 +417,7 @@ void run_t(const Prog &p, Mode mode) {
         for (auto &r : c.r) if (r.action != A_NOTHING && r.t_begin < earliest_set) earliest_set = r.t_begin;
         int win_begin = winner >= 0 ? c.r[winner].t_begin : t_destroy;
         int win_end = winner >= 0 ? c.r[winner].t_end : t_destroyed;
+        if (p.factory) { earliest_set = 0; win_begin = win_end = 0; }      // resolved before anybody looked
         for (size_t i = 0; i < c.w.size(); i++) {
             WRec &w = c.w[i];
             HZ_CHECK(w.resumes == 1, "waiter %zu (kind %d) was released %d times (exactly once expected)", i, w.kind, w.resumes);
